@@ -18,7 +18,7 @@ ASSUMPTIONS = ['unitless (valueunit None) spectra stored in m / um / nm / angstr
                'all-zero spectra under preserve_power (0/0) are not generated',
                "Simpson's rule is exercised only with uniformly spaced centres and data, as the property scopes it"]
 PLAN = {'quick': {'gen': 8}, 'thorough': {'gen': 16, 'tests': 1, 'docs': 1}}
-REQUIRED_BUCKETS = ['integrate:bright-band-below-bounds', 'wave:integer-dtype', 'unit:m', 'unit:um', 'unit:nm', 'unit:angstrom', 'bin:unit-same', 'bin:unit-differs', 'integrate:trapz', 'integrate:simps', 'bin:trapz', 'bin:simps', 'ends:symmetric', 'ends:inside',
+REQUIRED_BUCKETS = ['bin:integer-centres', 'values:small-int', 'bin:zero-spectrum', 'integrate:bright-band-below-bounds', 'wave:integer-dtype', 'unit:m', 'unit:um', 'unit:nm', 'unit:angstrom', 'bin:unit-same', 'bin:unit-differs', 'integrate:trapz', 'integrate:simps', 'bin:trapz', 'bin:simps', 'ends:symmetric', 'ends:inside',
                     'preserve:True', 'preserve:False', 'grid:nonuniform', 'op:crop', 'op:trim', 'op:pad', 'op:append',
                     'op:resample', 'op:raised', 'history:len>=6']
 REQUIRED_ANCHORS = ['probe:Spectrum.crop', 'probe:Spectrum.trim', 'probe:Spectrum.pad', 'probe:Spectrum.append',
@@ -283,6 +283,71 @@ def workload(ctx, lentil):
                       scale=float(np.max(np.abs(ref))))
         else:
             ctx.oracle_evals['bin:exact-linear'] += 0
+    # ---- the TYPE in which numbers are handed over does not matter: integer-typed bin centres (a hand-typed list such as
+    # [500, 550, 600]), integer / boolean value arrays (a filter given as 0/1, camera counts), and an all-zero spectrum
+    for i in range(max(8, n // 8)):
+        m = int(rng.integers(6, 30))
+        step = int(rng.integers(2, 12))
+        w = 400.0 + step * np.arange(m)
+        v = rng.uniform(0.2, 3, size=m)
+        method = 'trapz' if i % 2 else 'simps'
+        ends = 'symmetric' if i % 4 < 2 else 'inside'
+        preserve = bool(i % 3 == 0)
+        nb = int(rng.integers(2, 7))
+        cstep = int(rng.integers(1, max(2, (m * step) // (nb + 2))))
+        c_int = (int(w[1]) + 1 + cstep * np.arange(nb)).astype([np.int64, np.int32, np.uint16][i % 3])
+        if c_int[-1] >= w[-2] or int(c_int[-1]) - int(c_int[0]) < 3 * step:
+            continue        # (the power normalisation needs a few data samples inside the span of the centres)
+        desc = {'bin-types': method, 'ends': ends, 'preserve': preserve, 'centres': c_int.tolist(), 'step': step}
+        ctx.case(desc, ['bin:integer-centres'])
+        sp = S(w, v)
+        dcen = np.diff(c_int.astype(np.int64))
+        fractional = bool(np.any(dcen % 2 != 0)) or (ends == 'inside' and bool(np.any(dcen[[0, -1]] % 4 != 0)))
+        try:
+            b_f = np.asarray(sp.bin(c_int.astype(float), interp_method=method, ends=ends, preserve_power=preserve), float)
+            forms = [c_int, c_int.tolist(), tuple(int(x) for x in c_int)]
+            b_i = np.asarray(sp.bin(forms[i % 3], interp_method=method, ends=ends, preserve_power=preserve), float)
+            # known finding (known_findings.txt): under Simpson's rule lentil stores the interleaved mid-points in the centres' own
+            # integer dtype.  Only a deviation that this mechanism can explain carries that key: some mid-point (or, for
+            # 'inside' ends, quarter-point) of the integer centres must be fractional; anything else is a new violation.
+            key_i = f'bin|integer-centres|{method}' + ('|midpoints-truncated' if (method == 'simps' and fractional) else '')
+            ctx.close('bin:exact-linear', b_i, b_f, 1e-12, key_i,
+                      'bins for integer-typed centres differ from the bins for the same centres given as floats', desc,
+                      scale=float(np.max(np.abs(b_f))) + 1e-300)
+        except Exception as e:
+            # (truncated mid-points can coincide with their neighbours: the sampler then refuses the repeated abscissae - same mechanism)
+            ctx.check(False, 'bin:count', 'bin|integer-centres|simps|midpoints-truncated' if (method == 'simps' and fractional)
+                      else f'bin|integer-centres|raises={type(e).__name__}', f'{type(e).__name__}: {e}', desc)
+        # integer / boolean VALUES: integrals and bins as for the same numbers held as floats
+        dtv = [np.uint8, bool, np.int16, np.uint16, np.int8][i % 5]
+        vi = (rng.random(m) < 0.8).astype(dtv) if dtv is bool else \
+            rng.integers(int(np.iinfo(dtv).max * 0.5), np.iinfo(dtv).max, size=m, endpoint=True).astype(dtv)
+        ctx.case({'value-dtype': np.dtype(dtv).name, 'n': m, 'method': method}, ['values:small-int'])
+        try:
+            si, sf = S(w, vi), S(w, vi.astype(float))
+            lo_, hi_ = w[int(rng.integers(0, m // 2))], w[int(rng.integers(m // 2 + 1, m))]
+            for mth in ('trapz', 'simps'):
+                Ii, If = float(si.integrate(lo_, hi_, mth)), float(sf.integrate(lo_, hi_, mth))
+                ctx.close('integrate:exact-pl', np.array([Ii]), np.array([If]), 1e-12, f'integrate|value-dtype|{mth}',
+                          'the integral of integer / boolean values differs from the integral of the same numbers held as floats',
+                          {'dtype': np.dtype(dtv).name, 'method': mth}, scale=abs(If) + 1e-300)
+            cc = np.linspace(w[2], w[-3], 4)
+            bi = np.asarray(si.bin(cc, interp_method='trapz', preserve_power=True), float)
+            bf = np.asarray(sf.bin(cc, interp_method='trapz', preserve_power=True), float)
+            ctx.close('bin:exact-linear', bi, bf, 1e-12, 'bin|value-dtype', 'bins of integer / boolean values differ from the bins of the same '
+                      'numbers held as floats', {'dtype': np.dtype(dtv).name}, scale=float(np.max(np.abs(bf))) + 1e-300)
+        except Exception as e:
+            ctx.check(False, 'integrate:exact-pl', f'value-dtype|raises={type(e).__name__}', str(e), {'dtype': np.dtype(dtv).name})
+        # an all-zero spectrum: every bin is zero (and so is their sum, the integral), with or without power preservation
+        ctx.case({'zero-spectrum': m, 'method': method}, ['bin:zero-spectrum'])
+        try:
+            zs = S(w, np.zeros(m))
+            with np.errstate(all='ignore'):
+                bz = np.asarray(zs.bin(np.linspace(w[1], w[-2], 4), interp_method=method, ends=ends, preserve_power=preserve), float)
+            ctx.check(bz.shape == (4,) and bool(np.all(bz == 0)), 'bin:nonnegative', f'bin|zero-spectrum|preserve={preserve}',
+                      'the bins of an all-zero spectrum are not all zero', {'bins': bz, 'preserve': preserve, 'method': method})
+        except Exception as e:
+            ctx.check(False, 'bin:nonnegative', f'bin|zero-spectrum|raises={type(e).__name__}', str(e), {'method': method})
     # ---- histories ----------------------------------------------------------------------------------------
     nh = ctx.count(60, 500)
     for i in range(nh):
